@@ -2,6 +2,8 @@ import LettreVerif.Model.BodyEnc
 import LettreVerif.Proofs.B64Lines
 import LettreVerif.Model.Dkim
 import LettreVerif.Spec.Cost
+import LettreVerif.Model.XText
+import LettreVerif.Proofs.C03
 /-!
 # C19 — No input makes the library panic, overflow the stack, or run away
 
@@ -49,6 +51,26 @@ theorem base64_body_linear (b : Bytes) : (BodyEnc.b64Body b).length ≤ 2 * b.le
   split
   · simp
   · exact BodyEnc.b64Lines_size _ b
+
+/-- An xtext parameter value is at most three times the value. -/
+theorem xtext_at_most_triples (v : Bytes) : (XText.xtext v).length ≤ 3 * v.length := by
+  unfold XText.xtext XText.encode
+  induction v with
+  | nil => simp
+  | cons b bs ih =>
+    have hb : (XText.encByte XText.twoDigits XText.escDel b).length ≤ 3 := by
+      unfold XText.encByte; split <;> (try split) <;> simp
+    simp only [List.map_cons, List.flatten_cons, List.length_append, List.length_cons]
+    omega
+
+/-- Everything written in the DATA phase (dot-stuffed content and the end-of-data marker) is at
+    most twice the message plus five octets. -/
+theorem data_phase_linear (m : Bytes) : (Codec.wire m).length ≤ 2 * m.length + 5 := by
+  have := (C03.encode_len .sol m).2
+  simp [Codec.wire, Codec.terminator]; omega
+
+/-- non-vacuity / tightness: a message of dots after CRLF doubles; a value of controls triples -/
+example : (Codec.wire [46]).length = 2 * 1 + 5 ∧ (XText.xtext [0, 9, 32]).length = 3 * 3 := by decide
 
 /-! The timing rule on concrete series: linear and n·log n series pass, a quadratic one does not. -/
 example : Cost.superLinear [(65536, 25000), (131072, 50000), (262144, 101000), (524288, 203000)] = false := by decide
